@@ -46,6 +46,7 @@ type encNode struct {
 	VC   string     `json:"vc"`
 	V    int        `json:"v"`
 	Sub  []*encNode `json:"sub"`
+	Size int        `json:"size,omitempty"` // history component: the text of a text kind has exactly this many bytes
 
 	conc any    // concrete Go value handed to the library
 	text string // the textual content of text kinds (string, error text, ...)
@@ -463,6 +464,11 @@ func (r *encRun) build(nodes []*encNode, path []int, depth int) slog.Attrs {
 			if pr != nil && pr.Pos == n.Kind && n.VC == pr.Cls && r.probeTx == "" {
 				n.text = r.g.probed(n.VC)
 				r.probeTx = n.text
+			} else if n.Size > 0 { // a long plain run, the special character (if any) behind it
+				n.text = fmt.Sprintf("v%d", n.V) + encSizedPlain(r.g.r, n.Size)
+				if n.VC != "plain" && n.VC != "" {
+					n.text += r.g.rep(n.VC) + r.g.rep("plain")
+				}
 			} else if n.VC == "plain" || n.VC == "" {
 				n.text = fmt.Sprintf("v%d", n.V) + r.g.rep("plain")
 			} else {
@@ -612,6 +618,8 @@ func encMain(args []string) int {
 			obs = encObsColor(r, payload, site)
 		}
 		obs["writes"] = len(encCap.chunks)
+		delete(obs, "lvltext")
+		delete(obs, "tagtext")
 		line1 := map[string]any{"rec": c.encRec, "obs": obs}
 		if pr != nil {
 			form, found := encProbeForm(payload, pr.Cls, r.g.last)
@@ -625,9 +633,10 @@ func encMain(args []string) int {
 }
 
 type encSite struct {
-	file string
-	line int
-	fn   string
+	file   string
+	line   int
+	lineHi int // > 0: any line in line..lineHi (history component: the call sits inside enchDo)
+	fn     string
 }
 
 func encKeyList(r *encRun) map[string]string {
@@ -747,6 +756,17 @@ func encTokens(seg, cls string) []string {
 		}
 	}
 	return out
+}
+
+const encPlainAlphabet = "abcdefghijklmnopqrstuvwxyzABCDEFGHIJKLMNOPQRSTUVWXYZ0123456789_-.:,;!?/()+*#@%~^|"
+
+// encSizedPlain: n bytes of plain text (no space, quote, backslash, '=', markup or control byte)
+func encSizedPlain(r *rand.Rand, n int) string {
+	b := make([]byte, n)
+	for i := range b {
+		b[i] = encPlainAlphabet[r.Intn(len(encPlainAlphabet))]
+	}
+	return string(b)
 }
 
 func encJSONString(v any) string {
